@@ -477,6 +477,11 @@ func censusLeaf(v ssa.Value) string {
 			return "len(" + shortDesc(p, 5) + ")"
 		}
 	}
+	// a counter proven to equal the length of the join of the pieces collected so far (accpair.go) is the length of the
+	// string a concatenating decoder would hold
+	if ph, ok := v.(*ssa.Phi); ok && joinedLenCounter(ph) {
+		return "len(string)"
+	}
 	return shortDesc(v, 5)
 }
 
